@@ -179,6 +179,7 @@ func C15(c *core.Ctx) {
 	// (or returns) but the reader must still end, the connection must still close promptly
 	c15HandlerRejects(c)
 	c15HandlerCloses(c)
+	c15CloseReasons(c)
 	// no reader goroutine is left behind
 	time.Sleep(50 * time.Millisecond)
 	if left := runtime.NumGoroutine() - base; left > 2 {
@@ -560,5 +561,65 @@ func wsWriteErrors(c *core.Ctx, sig string) {
 			c.Violation("judge-go", sig+"-write-error-swallowed", fmt.Sprintf("the underlying WriteMessage failed with %q but Write returned (%d, %v)", we.Error(), n, werr), map[string]interface{}{"error": we.Error()})
 		}
 		_ = conn.Close()
+	}
+}
+
+// c15CloseReasons: CloseWithMsg with close codes and reason texts of any length (a control frame carries at most
+// 125 bytes: whatever the connection does about a reason that does not fit, the call is the one close call, the
+// underlying connection is closed once, Closed() is true, a running Listen returns, later calls are multiple-close).
+func c15CloseReasons(c *core.Ctx) {
+	for _, code := range []int{websocket.CloseNormalClosure, websocket.CloseGoingAway, websocket.CloseNoStatusReceived} {
+		for _, n := range []int{0, 1, 122, 123, 124, 125, 126, 4096, 70000} {
+			for _, listening := range []bool{true, false} {
+				ec := fakes.NewExtConn()
+				ec.FrameLimit = true
+				conn, err := ws.NewConnection(ec, ws.ConnectionOptions{CloseDeadline: wsCloseDeadline})
+				if err != nil {
+					panic(err)
+				}
+				lres := make(chan error, 1)
+				if listening {
+					go func() { lres <- conn.Listen() }()
+					time.Sleep(2 * time.Millisecond)
+				}
+				replay := map[string]interface{}{"code": code, "reason_bytes": n, "listening": listening}
+				t0 := time.Now()
+				done := make(chan error, 1)
+				go func() { done <- conn.CloseWithMsg(code, strings.Repeat("r", n)) }()
+				select {
+				case <-done:
+				case <-time.After(wsCloseDeadline + 2*time.Second):
+					c.Violation("judge-go", "c15-slow-close", "CloseWithMsg did not return within the close deadline plus 2 s", replay)
+				}
+				dur := time.Since(t0)
+				c.Eval()
+				c.Hist(fmt.Sprintf("CloseWithMsg reason of %d bytes", n))
+				if dur > wsCloseDeadline+250*time.Millisecond {
+					c.Violation("judge-go", "c15-slow-close", fmt.Sprintf("CloseWithMsg took %v", dur), replay)
+				}
+				if !conn.Closed() {
+					c.Violation("judge-go", "c15-closed-reverts", "Closed() is false after CloseWithMsg returned", replay)
+				}
+				if k := ec.NumCloses(); k != 1 {
+					c.Violation("judge-go", "c15-underlying-close", fmt.Sprintf("the underlying connection was closed %d times by the one close call (reason of %d bytes)", k, n), replay)
+				}
+				if k := ec.CloseFrames(); k > 1 {
+					c.Violation("judge-go", "c15-close-frames", fmt.Sprintf("%d close frames were written", k), replay)
+				}
+				if listening {
+					select {
+					case <-lres:
+					case <-time.After(2 * time.Second):
+						c.Violation("judge-go", "c15-listen-hangs", fmt.Sprintf("Listen did not return within 2 s after CloseWithMsg (reason of %d bytes)", n), replay)
+					}
+				}
+				if err := conn.Close(); err == nil || !strings.Contains(err.Error(), "multiple close") {
+					c.Violation("judge-go", "c15-multiple-close", fmt.Sprintf("a close call after CloseWithMsg returned %v", err), replay)
+				}
+				if k := ec.NumCloses(); k != 1 {
+					c.Violation("judge-go", "c15-underlying-close", fmt.Sprintf("the underlying connection was closed %d times after a second close call", k), replay)
+				}
+			}
+		}
 	}
 }
